@@ -1,13 +1,25 @@
 import RpmVerif.Driver.Common
 import RpmVerif.Model.Header
 import RpmVerif.Spec.Canon
+import RpmVerif.Model.Io
+import RpmVerif.Model.BufWriter
 /-! Driver for C01. Ops `pkgrt BYTES`, `metart BYTES`, `pkgrtv clear|newempty BYTES` (signature header cleared /
 replaced by `new_empty()` in memory before writing) — observation
-`ok w=<fnv of written bytes> len=<n> re=<reparse equals the value written> rw=<rewrite identical>` | `err`. -/
+`ok w=<fnv of written bytes> len=<n> re=<reparse equals the value written> rw=<rewrite identical>` | `err`.
+
+`openrt01 BYTES` (entry points and source / sink kinds, AUDIT2 follow-up 1): the same bytes through `Package::parse` on a slice
+(`s=`), on an `io::Cursor` (`c=`), `Package::open` on a file (`o=` with a `&Path`, `os=` with a `&str`), each summarised as
+`<len of written bytes>:<fnv>:<content len>:<fnv content>` | `err`, `eq=` (the four values equal); then `write_file` of the
+slice-parsed value (`wf=<len>:<fnv>` of the file), `Package::open` of that file (`wo=`), `weq=`.
+Model: `s` = `parsePackage`, `c` = `Io.parseChunked bs []` (a source that hands out whatever is asked), `o` / `os` =
+`Io.parseChunked` under a script of 8192-byte chunks (std's default `BufReader` capacity over a `File`), `wf` =
+`Io.writeFile 8192 (prog p)` into an all-accepting sink (`BufWriter::new(File::create(..))`), `wo` = `parseChunked` of that.
+Spec, from the raw bytes alone: every source kind must deliver canon(input) with the content = everything after the
+metadata, and the file written must hold exactly those bytes and open to the same value. All four rejected: silent. -/
 namespace RpmVerif.Driver.C01
 open RpmVerif.Hdr RpmVerif.Driver
 
-def ops : List String := ["pkgrt", "metart", "pkgrtv"]
+def ops : List String := ["pkgrt", "metart", "pkgrtv", "openrt01"]
 
 def obsOf (w : Bytes) (re rw : Bool) : String :=
   s!"ok w={hex16 (fnv w)} len={w.length} re={boolStr re} rw={boolStr rw}"
@@ -15,13 +27,69 @@ def obsOf (w : Bytes) (re rw : Bool) : String :=
 def errBranch {α} : Out α → String
   | .err c => "rejected-" ++ c | .panic s => "panic-" ++ s | .ok _ => "ok"
 
+def summ (w content : Bytes) : String := s!"{w.length}:{hex16 (fnv w)}:{content.length}:{hex16 (fnv content)}"
+
+def summOut : Out Package → String
+  | .ok p => summ (writePackage p) p.content
+  | .err _ => "err"
+  | .panic _ => "panic"
+
+def sameOut : Out Package → Out Package → Bool
+  | .ok a, .ok b => a == b
+  | .err _, .err _ => true
+  | _, _ => false
+
+/-- std's default `BufReader` capacity / `BufWriter` capacity -/
+def stdBufCap : Nat := 8192
+
+def openrtHandle (bs : Bytes) (impl : String) : String :=
+  let s := parsePackage bs
+  let c := Io.parseChunked bs []
+  let script := List.replicate (bs.length / stdBufCap + 8) (Io.Chunk.size stdBufCap)
+  let o := Io.parseChunked bs script
+  let eq := sameOut c s && sameOut o s
+  let head := s!"s={summOut s} c={summOut c} o={summOut o} os={summOut o} eq={boolStr eq}"
+  let m := match s with
+    | .ok p =>
+      let ds := (Io.prog p).map Io.Act.buf
+      let total := (writePackage p).length
+      let f := Io.writeFile stdBufCap ds (List.replicate (ds.length + 4) (Io.Resp.ok (total + 1)))
+      let wf := match f.2 with | .ok => s!"{f.1.length}:{hex16 (fnv f.1)}" | _ => "err"
+      let re := Io.parseChunked f.1 (List.replicate (f.1.length / stdBufCap + 8) (Io.Chunk.size stdBufCap))
+      s!"{head} wf={wf} wo={summOut re} weq={boolStr (sameOut re s)}"
+    | _ => head
+  -- the spec, from the raw bytes alone
+  let r := bs.drop 96
+  let l1 := Canon.hdrLen r
+  let pad := Canon.sigPadOf r
+  let mdLen := 96 + l1 + pad + Canon.hdrLen (r.drop (l1 + pad))
+  let cw := Canon.canon bs
+  let want := summ cw (bs.drop mdLen)
+  let wantAll := s!"s={want} c={want} o={want} os={want} eq=true wf={cw.length}:{hex16 (fnv cw)} wo={want} weq=true"
+  let v :=
+    if impl == "s=err c=err o=err os=err eq=true" then "dontcare"
+    else if impl == wantAll then "holds"
+    else match impl.splitOn " " with
+      | sI :: cI :: oI :: osI :: _ =>
+        if (cI.drop 2).toString != (sI.drop 2).toString || (oI.drop 2).toString != (sI.drop 2).toString
+            || (osI.drop 3).toString != (sI.drop 2).toString then "fails:entry-points-differ"
+        else if sI != s!"s={want}" then "fails:not-canonical"
+        else "fails:write-file-open"
+      | _ => "fails"
+  let big := if bs.length > stdBufCap then "big" else "small"
+  let br := match s with
+    | .ok p => s!"openrt-{big}-accepted-sig{min p.md.signature.entries.length 3}-hdr{min p.md.header.entries.length 3}-pay{min p.content.length 1}"
+    | o => s!"openrt-{big}-{errBranch o}"
+  answer m v br
+
 def handle (op : String) (args : List String) (impl : String) : String :=
   match args with
   | [hb] =>
     match bytesOfHex hb with
     | none => badReq "hex"
     | some bs =>
-      if op == "pkgrt" then
+      if op == "openrt01" then openrtHandle bs impl
+      else if op == "pkgrt" then
         match parsePackage bs with
         | .ok p =>
           let w := writePackage p
